@@ -34,6 +34,7 @@ type regOp struct {
 	NodeIDs   []string `json:"nodes,omitempty"`
 	NodeKind  int      `json:"kind,omitempty"`
 	Policy    string   `json:"policy,omitempty"` // "", allow, deny, invalid
+	CtxDone   bool     `json:"ctx_done,omitempty"` // removals: the caller's context is already cancelled
 	Policy2   string   `json:"policy2,omitempty"` // a second policy option in the same call (one of the two is invalid, or both are equal)
 	Thr       int      `json:"thr,omitempty"`
 	CloseErr  bool     `json:"close_fails,omitempty"`
@@ -85,8 +86,14 @@ func (o regOp) String() string {
 	case "rmpipe":
 		return fmt.Sprintf("RemovePipeline(%s/%s)", o.Typ, o.PID)
 	case "rmpan":
+		if o.CtxDone {
+			return fmt.Sprintf("RemovePipelineAndNodes(ctx-cancelled,%s/%s)", o.Typ, o.PID)
+		}
 		return fmt.Sprintf("RemovePipelineAndNodes(%s/%s)", o.Typ, o.PID)
 	case "rmnode":
+		if o.CtxDone {
+			return fmt.Sprintf("RemoveNode(ctx-cancelled,%q)", o.ID)
+		}
 		return fmt.Sprintf("RemoveNode(%q)", o.ID)
 	case "send":
 		return fmt.Sprintf("Send(%s)", o.Typ)
@@ -151,8 +158,15 @@ type regWorld struct {
 	wrapOf  map[*recNode]*wrapNode // the outermost wrapper a node object was registered behind
 }
 
+// regBrokerOpts: options handed to NewBroker by the current run ("accepted, but none are
+// applied": a Broker built with policy options must behave like any other).
+var regBrokerOpts []el.Option
+
 func newRegWorld(sim *simrt.Sim, types, ids []string) *regWorld {
-	b, _ := el.NewBroker()
+	b, err := el.NewBroker(regBrokerOpts...)
+	if err != nil || b == nil {
+		b, _ = el.NewBroker()
+	}
 	return &regWorld{broker: b, model: newBrokerModel(), h: newFanHarness(sim), types: types, ids: ids, regd: map[string]el.Node{}, wrapOf: map[*recNode]*wrapNode{}}
 }
 
@@ -166,6 +180,12 @@ func (w *regWorld) apply(op regOp) (ms []mismatch, failed bool) {
 		ms = append(ms, mismatch{rule, class, fmt.Sprintf(format, a...)})
 	}
 	ctx := context.Background()
+	if op.CtxDone {
+		// what a removal does to the registry does not depend on the caller's context
+		c, cancel := context.WithCancel(ctx)
+		cancel()
+		ctx = c
+	}
 	switch op.Kind {
 	case "regnode":
 		w.nodeSeq++
@@ -572,7 +592,7 @@ func runRegistrySeqOps(rc *RunCtx, prop string, fixed []regOp) {
 	tp := rc.Tape
 	sim := rc.Sim
 	types := []string{"ta", "tb"}
-	pids := []string{"p0", "p1", "p2"}
+	pids := []string{"p0", "p1 ", "\tp2"} // ids are opaque: surrounding white space belongs to the id
 	var ids []string
 	idKind := map[string]int{}
 	switch prop {
@@ -593,6 +613,21 @@ func runRegistrySeqOps(rc *RunCtx, prop string, fixed []regOp) {
 	}
 	desc := &regDesc{Types: types, IDs: ids}
 	rc.Desc = desc
+	regBrokerOpts = nil
+	if fixed == nil && (prop == "C07" || prop == "C05") {
+		switch tp.Choose(5, "newbroker-options") {
+		case 1:
+			regBrokerOpts = []el.Option{el.WithNodeRegistrationPolicy(el.DenyOverwrite)}
+		case 2:
+			regBrokerOpts = []el.Option{el.WithPipelineRegistrationPolicy(el.DenyOverwrite)}
+		case 3:
+			regBrokerOpts = []el.Option{el.WithNodeRegistrationPolicy(el.DenyOverwrite), el.WithPipelineRegistrationPolicy(el.DenyOverwrite)}
+		}
+		if regBrokerOpts != nil {
+			simrt.Probe("registry.newbroker-with-options")
+		}
+	}
+	defer func() { regBrokerOpts = nil }()
 
 	genPipeNodes := func() []string {
 		if prop == "C05" {
@@ -720,9 +755,9 @@ func runRegistrySeqOps(rc *RunCtx, prop string, fixed []regOp) {
 		case 2:
 			return regOp{Kind: "rmpipe", Typ: typ, PID: pid}
 		case 3:
-			return regOp{Kind: "rmpan", Typ: typ, PID: pid}
+			return regOp{Kind: "rmpan", Typ: typ, PID: pid, CtxDone: (prop == "C06" || prop == "C05") && tp.Choose(4, "ctx-done") == 0}
 		case 4:
-			o := regOp{Kind: "rmnode", ID: id}
+			o := regOp{Kind: "rmnode", ID: id, CtxDone: (prop == "C06" || prop == "C05") && tp.Choose(4, "ctx-done") == 0}
 			if prop == "C05" && tp.Choose(8, "rmzz") == 0 {
 				o.ID = []string{"zz", ""}[tp.Choose(2, "which")]
 			}
